@@ -8,6 +8,7 @@ import warnings
 from xml.etree import ElementTree
 
 from . import execute, project
+from .execute import exc
 from .execute import Machinery, add, parse_msg, parse_ro
 from .render import Gamma
 
@@ -84,7 +85,8 @@ def run_behaviour(bid, beh, seed, observe=None, expose=None):
                 try:
                     m = parse_msg(text)
                 except Exception as e:  # noqa: BLE001
-                    ev.update(post=ev["pre"], status="classify:" + type(e).__name__)
+                    ev.update(post=ev["pre"], status=("unclassified" if isinstance(e, exc.MosRoMgrException) else "crash:" + type(e).__name__),
+                              completed_acc=execute.completed_of(ro))
                     events.append(ev)
                     continue
                 live[idx] = (m, str(m), expose(m, mabs["cls"]) if expose else None)
